@@ -6,9 +6,13 @@
    the same arithmetic.                                                   *)
 EXTENDS Naturals
 
-CONSTANTS CAP,        \* OVNI_MAX_EV_BUF
-          Reserve     \* TRUE: code after "fix: runtime: nested flush markers"
-                      \* FALSE: the arithmetic of the pinned commit (negative cfg)
+CONSTANTS
+  \* OVNI_MAX_EV_BUF
+  \* @type: Int;
+  CAP,
+  \* TRUE: code after "fix: runtime: nested flush markers"; FALSE: the arithmetic of the pinned commit (negative cfg)
+  \* @type: Bool;
+  Reserve
 
 HdrSize   == 12                      \* sizeof(struct ovni_ev_header)
 StreamHdr == 8                       \* magic + version
